@@ -11,7 +11,7 @@ fn neg(e: Expression) -> Expression {
     Expression::unary_minus(e.at_pos(Position::start()))
 }
 
-//# harness neg_integer tier=quick label=complete props=C10,C06 fn=rusty_parser/src/expr/types.rs::Expression::unary_minus
+//# harness neg_integer tier=quick label=complete props=C10,C06,C07 fn=rusty_parser/src/expr/types.rs::Expression::unary_minus
 harness!(neg_integer, 1, {
     let n = vs::i32();
     vs::assume(-32768 <= n && n <= 32767);
@@ -66,7 +66,7 @@ fn check_neg_long(n: i64) {
     std::mem::forget(r);
 }
 
-//# harness neg_long tier=quick label=complete props=C10,C06 fn=rusty_parser/src/expr/types.rs::Expression::unary_minus
+//# harness neg_long tier=quick label=complete props=C10,C06,C07 fn=rusty_parser/src/expr/types.rs::Expression::unary_minus
 harness!(neg_long, 1, {
     let n = vs::i64();
     vs::assume(-2147483648 <= n && n <= 2147483647);
